@@ -1,10 +1,13 @@
 import SJ.Model.IoFault
 import SJ.Proofs.Machine
+import SJ.Proofs.SerUtf8
 /-!
 # C13 — I/O failures surface as Io errors and never corrupt results
 -/
 namespace SJ.Props.C13
 open SJ SJ.Gen SJ.Model.Machine SJ.Model.IoFault SJ.Proofs.Machine
+open SJ.Model.Ser (serCompact serPretty)
+open SJ.Spec.Program (SVal Ext ExtOK)
 
 /-- **C13 (reader).** With a reader that fails after delivering `bs`, the result is `Io` exactly
     when no delivered byte is rejected; otherwise it is the very error (code and position) that
@@ -60,6 +63,50 @@ theorem c13_write_prefix (bufs : List Bytes) (m : Nat) :
 theorem c13_write_is_prefix (bufs : List Bytes) (m : Nat) :
     (writeFault bufs m).1 <+: bufs.flatten := by
   simp [writeFault, List.take_prefix]
+
+/-- **C13 (writer, UTF-8).** What reaches the writer, call by call: for a program whose strings are
+    UTF-8 (`SVal.utf8OK`: what Rust's types guarantee) and either formatter (pretty: a UTF-8 indent
+    string), every buffer passed to `write_all` is valid UTF-8 on its own — so a writer that requires
+    UTF-8 per call (`fmt::Write` adapters, `String`-backed writers using `from_utf8`) never sees a
+    split multi-byte sequence — and if the writer fails after accepting some number `n` of whole
+    buffers, what it holds is valid UTF-8. (Restatement of C03's `c03_utf8` on the writer side.) -/
+theorem c13_buffers_utf8 (ext : Ext) (hext : ExtOK ext) (p : SVal) (hu : p.utf8OK = true) (bufs : List Bytes)
+    (h : serCompact ext p = .ok bufs ∨
+      ∃ indent, Spec.Utf8.validUtf8 indent = true ∧ serPretty ext indent p = .ok bufs) :
+    (∀ b ∈ bufs, Spec.Utf8.validUtf8 b = true) ∧
+    (∀ n, Spec.Utf8.validUtf8 (bufs.take n).flatten = true) := by
+  have hall : Proofs.SerUtf8.AllV bufs := by
+    rcases h with h | ⟨indent, hi, h⟩
+    · unfold serCompact at h
+      cases hr : Model.Ser.ser ext .compact p Model.Ser.FState.init with
+      | error e => simp [hr, Except.map] at h
+      | ok r =>
+        have : r.bufs = bufs := by simpa [hr, Except.map] using h
+        rw [← this]; exact Proofs.SerUtf8.ser_utf8 ext hext .compact trivial p _ r hu hr
+    · unfold serPretty at h
+      cases hr : Model.Ser.ser ext (.pretty indent) p Model.Ser.FState.init with
+      | error e => simp [hr, Except.map] at h
+      | ok r =>
+        have : r.bufs = bufs := by simpa [hr, Except.map] using h
+        rw [← this]; exact Proofs.SerUtf8.ser_utf8 ext hext (.pretty indent) hi p _ r hu hr
+  exact ⟨hall, fun n => Proofs.SerUtf8.allV_flatten fun b hb => hall b (List.mem_of_mem_take hb)⟩
+
+/-- `["é\"é"]` with real `itoa`: the buffers are `[`, `"`, `é`, `\"`, `é`, `"`, `]` — the string is cut at
+    the escaped quote only; a fault after 3 whole buffers leaves `["é` -/
+def extI : Ext := { itoa := Spec.Number.decimal, ryu64 := fun _ => [0x30], ryu32 := fun _ => [0x30] }
+theorem extI_ok : ExtOK extI :=
+  ⟨fun _ => rfl, fun _ _ => ⟨⟨false, [0x30], [], []⟩, rfl, rfl⟩, fun _ _ => ⟨⟨false, [0x30], [], []⟩, rfl, rfl⟩⟩
+
+example : serCompact extI (.seq none [.str [0xc3, 0xa9, 0x22, 0xc3, 0xa9]])
+      = .ok [[0x5b], [0x22], [0xc3, 0xa9], [0x5c, 0x22], [0xc3, 0xa9], [0x22], [0x5d]] ∧
+    (SVal.seq none [.str [0xc3, 0xa9, 0x22, 0xc3, 0xa9]]).utf8OK = true := ⟨rfl, rfl⟩
+
+example : Spec.Utf8.validUtf8 (([[0x5b], [0x22], [0xc3, 0xa9], [0x5c, 0x22], [0xc3, 0xa9], [0x22], [0x5d]] : List Bytes).take 3).flatten = true :=
+  (c13_buffers_utf8 extI extI_ok (.seq none [.str [0xc3, 0xa9, 0x22, 0xc3, 0xa9]]) rfl _ (.inl rfl)).2 3
+
+/-- a fault in the middle of a buffer (`m` bytes, `c13_write_prefix`) can of course split `é` -/
+example : (writeFault [[0x5b], [0x22], [0xc3, 0xa9]] 3).1 = [0x5b, 0x22, 0xc3] ∧
+    Spec.Utf8.validUtf8 [0x5b, 0x22, 0xc3] = false := ⟨rfl, by decide⟩
 
 /-- non-vacuity: `[1,]` then a fault: the trailing comma is reported, not Io; `[1,` then a fault: Io -/
 def envR : Env := { cfg := {}, src := .reader, tgt := .value }
